@@ -16,7 +16,7 @@ REFUTED = [
     "C18_values_attached_refuted (two depths of one call collocate with the same existing vertex: the earlier value is overwritten; "
     "open finding depth-value-lost-collision; the from-to analogue interval-value-lost-collision is found by the oracle)",
     "C18_divide_old_code_refuted (pre-repair compute_deviation: a zero-length leg takes the first station's direction / reads "
-    "uninitialised memory; repaired by fixes/C18-divide-uninitialised.patch)",
+    "uninitialised memory; repaired by /repo commit 9179588 = fixes/C18-divide-uninitialised.patch)",
 ]
 PARTIAL = [
     "C18_values_stay_attached_partial: depth values, under the side condition that no two entries of a call collocate with the same "
@@ -40,7 +40,8 @@ TRUSTED = [
 ASSUMPTIONS = [
     "survey depths are non-decreasing and not negative (the stated domain); collar, depths and values are small dyadic rationals",
     "survey tables are stored as float32 by the library: depths/angles are chosen exactly representable",
-    "fixes/C18-divide-uninitialised.patch is applied to the tree under test (on the unrepaired tree the oracle reports divide-where-uninitialised)",
+    "the model follows the repaired compute_deviation (/repo commit 9179588 = fixes/C18-divide-uninitialised.patch); on a tree without it "
+    "the oracle reports divide-where-uninitialised (poisoned-output probe) and off-path positions beyond a zero-length last leg",
 ]
 RULE = (
     "survey tables of 1-6 rows (default table, single row, first depth 0 or > 0, equal consecutive depths) with axis-aligned "
